@@ -40,6 +40,15 @@ static void* hammer_xchg(void* arg) { long me = (long)arg, i; pthread_barrier_wa
     for (i = 0; i < hn; i++) hret[me][i] = hf(inst[me], haddr, (U64)((me * hn + i + 1) & hmask), 0); return NULL; }
 static void* hammer_add(void* arg) { long me = (long)arg, i; pthread_barrier_wait(&bar);
     for (i = 0; i < hn; i++) hret[me][i] = hf(inst[me], haddr, 1, 0); return NULL; }
+/* store against read-modify-write: thread 0 alone writes the low bits (plain atomic stores of ever new values, top bit clear) and
+ * reads them back; the others only flip the top bit by adding 2^(width-1).  A completed store whose low bits are not read
+ * back was overwritten by the write half of somebody's read-modify-write: the RMW was not atomic with respect to the store. */
+static fn hst, hld; static U64 htop; static volatile int hstop; static long hbad;
+static void* svr_owner(void* arg) { long i; U64 low = htop - 1; (void)arg; pthread_barrier_wait(&bar);
+    for (i = 0; i < hn; i++) { U64 v = (U64)(i * 7 + 1) & low, x; hst(inst[0], haddr, v, 0); x = hld(inst[0], haddr, 0, 0); if ((x & low) != v) hbad++; }
+    hstop = 1; return NULL; }
+static void* svr_flipper(void* arg) { long me = (long)arg; pthread_barrier_wait(&bar);
+    while (!hstop) (void)hf(inst[me], haddr, htop, 0); return NULL; }
 static int cmp64(const void* a, const void* b) { U64 x = *(const U64*)a, y = *(const U64*)b; return x < y ? -1 : x > y; }
 static volatile int go;
 static void* adder(void* arg) { long n = (long)arg, i; while (!go) {} for (i = 0; i < n; i++) (void)at_add32(inst[0], 80, 1, 0); return NULL; }
@@ -68,6 +77,18 @@ int main(int argc, char** argv) {
         int k, mode; long t;
         hn = argc > 3 ? atol(argv[3]) : 20000; hthreads = nt;
         for (t = 0; t < nt; t++) hret[t] = malloc(sizeof(U64) * (size_t)hn);
+        for (k = 0; k < 7; k++) {
+            char nm[16]; long t2;
+            snprintf(nm, sizeof nm, "st%s", tags[k]); hst = lookup(nm); snprintf(nm, sizeof nm, "ld%s", tags[k]); hld = lookup(nm);
+            snprintf(nm, sizeof nm, "add%s", tags[k]); hf = lookup(nm);
+            haddr = cells[k]; htop = (U64)1 << (widths[k] - 1); hstop = 0; hbad = 0;
+            hst(&root, haddr, 0, 0);
+            pthread_barrier_init(&bar, NULL, (unsigned)nt);
+            pthread_create(&th[0], NULL, svr_owner, NULL);
+            for (t2 = 1; t2 < nt; t2++) pthread_create(&th[t2], NULL, svr_flipper, (void*)t2);
+            for (t2 = 0; t2 < nt; t2++) pthread_join(th[t2], NULL);
+            printf("{\"op\":\"stvsrmw%s\",\"threads\":%d,\"per_thread\":%ld,\"lost\":%ld,\"bad_final\":0}\n", tags[k], nt, hn, hbad);
+        }
         for (k = 0; k < 7; k++) for (mode = 0; mode < 2; mode++) {
             char name[16]; U64 total = (U64)nt * (U64)hn, lost = 0, final; U64* all; U64 j, n = 0; int bad_final = 0;
             snprintf(name, sizeof name, "%s%s", mode ? "add" : "xchg", tags[k]);
